@@ -302,7 +302,8 @@ def run(tier: str, seed: int) -> Result:
         base_unsup = trees(2, TINY[:2], width=2, task_types=('Leaf',), inner_leaves=TINY[:2])
     else:
         sup = trees(2, SMALL, width=2, task_types=('Leaf', 'BLeaf', 'PFoo'), inner_leaves=SMALL)
-        sup += trees(3, TINY[:3], width=2, task_types=('Leaf', 'PFoo'), inner_leaves=TINY[:3])
+        sup += trees(3, TINY, width=1, task_types=('Leaf', 'PFoo'), inner_leaves=TINY)
+        sup += trees(3, [1], width=2, task_types=('Leaf',), inner_leaves=[1])
         sup += trees(1, FULL, width=2, task_types=('Leaf',), inner_leaves=FULL)
         protos = (0, 1, 2, 3, 4, 5)
         base_unsup = trees(2, TINY[:3], width=2, task_types=('Leaf',), inner_leaves=TINY[:3])
@@ -351,7 +352,7 @@ def run(tier: str, seed: int) -> Result:
         'cross_interpreter_copies': n_cross,
         'evaluations': len(sup_items) * (len(protos) + 1) + len(unsup_items) * 3 + n_cross,
         'distinct_nontrivial': len(sup_items) + len(unsup_items),
-        'rule': (f'supported: every parameter tree to depth 2 (thorough: + depth 3 over a 3-value alphabet) x outer types, pickle protocols {protos}; '
+        'rule': (f'supported: every parameter tree to depth 2 (thorough: + depth 3: width 1 over 4 leaves, width 2 over 1 leaf) x outer types, pickle protocols {protos}; '
                  'unsupported: every supported tree of depth <=2 with one position replaced by object/set/bytes/complex/frozenset or wrapped in a dict '
                  'with an int/None/tuple/enum key; distinct_nontrivial = distinct (type, tree) constructions'),
         'samples': [f'{tn}(p={describe(t)}) protocols={p}' for tn, t, p in sup_items[:: max(1, len(sup_items) // 4)]][:4]
